@@ -28,6 +28,11 @@ CLAIMED = {
    text="All step sequences over {Task(a),Task(b),Random} up to length 7 (11 thorough) for 9 id pairs at bit-width boundaries, 21 varint-boundary seeds x 128 boundary ids x 7 shapes, 12 patterns x every length 0..400 (1200), each in 6 strict printed forms and up to 8 re-formatted forms; every proper prefix per hex digit up to a bound, header digit substitutions, every wrong magic byte, width fields 0 / >64, length fields beyond the payload: round-trip must be exact; malformed input must give None and never panic/abort (decodes run in supervised child processes).",
    note="Trusted: the independent reference reader (refdec.rs), cross-checked against layout arithmetic; padding-only truncation is not required to be rejected (statement: 'cut short' = a needed bit is missing).",
    design="DESIGN.md §4 C16"),
+ "C17": dict(level="model_checking", engine="e2-async",
+   technique="stateless exhaustive exploration of real async programs (future::spawn / block_on / yield_now / JoinHandle await-abort-drop-is_finished / hand-written leaf futures) under the explorer-scheduler + explicit-state BFS of an executor model + step-by-step co-simulation + future-drop monitor",
+   text="Every schedule of every generated program with 3 tasks (main under block_on): leaf futures that register the polling task's waker and are woken by another task, by themselves during poll (yield_now), or never; futures created and first polled in one task and awaited in another; nested block_on inside a task; JoinHandle awaited / aborted (before first poll, while pending, after completion, twice) / dropped (detach) / is_finished; nested spawns. Co-simulated on the executor model: a task able to progress is offered, a never-woken task is not; await yields the output exactly once or Cancelled iff the abort took effect, in which case the future was dropped before and performs no further step; detached tasks are cut off and never cause a deadlock report.",
+   note="Trusted: executor model (Appendix A); abort timing is loose (cancellation may happen at any later poll, never inside a nested block_on). Small-scope hypothesis.",
+   design="DESIGN.md §4 C17"),
  "C18": dict(level="model_checking", engine="e2-sem",
    technique="stateless exhaustive exploration of real BatchSemaphore programs under the explorer-scheduler + explicit-state BFS of a counter+queue model with permit ledger + step-by-step co-simulation; executions the reference model rejects are re-checked against a weakened model that encodes the two recorded findings",
    text="Every schedule of every generated program over acquire_blocking/try_acquire/release/close/available_permits and manually polled, awaited, cancelled and handed-over Acquire futures, permits 0-1 (0-3 thorough), batch sizes 1-2, both fairness modes, 2-3 tasks, on the real semaphore; co-simulated on the reference model (strict FIFO with grant in the releasing step / bag of waiters), whose ledger invariant avail+acquired+granted = initial+released is asserted in every state.",
